@@ -38,6 +38,18 @@ def decodeOne (p u : Option Hdr) : String :=
   | .ok _ => gate p
   | .error _ => "err"
 
+/-- algorithm names `JwsAlgorithm` deserialises (default features) -/
+def knownAlgs : List String :=
+  ["HS256", "HS384", "HS512", "RS256", "RS384", "RS512", "PS256", "PS384", "PS512", "ES256", "ES384", "ES512", "ES256K", "none", "EdDSA"]
+
+/-- the header parser `P` of the run: a header naming another algorithm does not deserialise -/
+def decodable (p : Option Hdr) : Bool :=
+  match p with
+  | none => true
+  | some h => match h.alg with
+    | none => true
+    | some a => knownAlgs.contains a
+
 def handle : List String → String
   | ["flat", p, u] =>
     match parseHdr p, parseHdr u with
@@ -64,7 +76,11 @@ def handle : List String → String
   | "dgeneral" :: hs =>
     match (hs.mapM parseHdr).bind pairs with
     | some rs =>
-      if generalDecoderAgree true rs then " ".intercalate (rs.map fun r => decodeOne r.1 r.2) else "err"
+      -- a protected header that does not deserialise (unknown algorithm name) takes no part in the agreement test
+      -- (`Jose.decodeGeneral`: `filterMap sigB64`) and is an error of its own
+      if generalDecoderAgree true (rs.filter fun r => decodable r.1) then
+        " ".intercalate (rs.map fun r => if decodable r.1 then decodeOne r.1 r.2 else "err")
+      else "err"
     | none => "bad-request"
   | _ => "bad-request"
 
